@@ -152,6 +152,12 @@ fn run_check(root: &str, pid: &str, tier: Tier, seed: u64, only: Option<String>)
       }
     }
   }
+  // debugging aid: extra exclusion switches (never set by registered commands)
+  if let Ok(x) = std::env::var("VERIF_EXTRA_EXCLUDE") {
+    for sw in x.split(',').filter(|s| !s.is_empty()) {
+      exclusions.insert(sw.to_string());
+    }
+  }
   let ctx = mk_ctx(root, tier, seed, exclusions.clone());
   // regression tier: replay committed files for this property (known/ probes of *fixed*
   // findings and regress/ files must hold)
